@@ -372,6 +372,21 @@ def gen_case(rnd, i):
         old, new = rnd.choice([(12, 12.0), (1, True), (0, False), (0.0, -0.0), ([1, 2], [1.0, 2]), ({"n": 1}, {"n": True}), (7, 7), ("s", "s")])
         nodes = [{"processor": "TSourceDef"}, {"processor": "TProbeEcho", "parameters": {"val": new}, "context_key": "level"}, {"processor": "TOp0"}]
         ctx0 = {"level": old, "other": "kept"}
+    if i % 8 == 7:
+        # one processor class used by several nodes with the parameter placed differently (configuration / context / missing)
+        proc = rnd.choice(["TOp1", "TOp2", "TProbeP", "TOp1Sub"])
+        def use(placement):
+            n = {"processor": proc}
+            if placement == "config":
+                n["parameters"] = {"a": rnd.choice(["cfg-a", 0, 4])}
+            if proc == "TProbeP":
+                n["context_key"] = rnd.choice(["p1", "p2"])
+            return n
+        order = rnd.choice([["config", "context"], ["context", "config"], ["config", "context", "config"], ["context", "config", "context"]])
+        nodes = [{"processor": "TSourceDef"}] + [use(pl) for pl in order]
+        ctx0 = {"other": "kept"}
+        if rnd.random() < 0.7:
+            ctx0["a"] = rnd.choice(["ctx-a", 5])        # otherwise the context-placed use fails as unresolved (unless it has a default)
     return nodes, ctx0
 
 
